@@ -191,6 +191,9 @@ MixQ == {Q([k |-> w, sym |-> sym, a |-> a]) : w \in {"atom", "anyOf", "allOf"}, 
         \* a valid set function first, then a set symbol where a scalar belongs (rejected at parse time, not evaluated without a cursor)
         \cup {Q([k |-> c, l |-> [k |-> "isEmpty", sym |-> <<"roles">>], r |-> [k |-> "atom", sym |-> sym, a |-> Cmp("eq", S(sA))]]) : c \in {"and", "or"}, sym \in SetSyms}
         \cup {Q([k |-> "or", l |-> [k |-> "anyOf", sym |-> <<"peers", "s">>, a |-> Cmp("eq", S(sA))], r |-> [k |-> "atom", sym |-> sym, a |-> IsNull(FALSE)]]) : sym \in SetSyms}
+        \* a set symbol where a scalar belongs, inside a sub-query (the enclosing set function must not make it acceptable)
+        \cup {Q([k |-> "isEmptyq", sym |-> <<"peers">>, q |-> Q([k |-> "atom", sym |-> sym, a |-> Cmp("eq", S(sA))])]) : sym \in SetSyms}
+        \cup {Q([k |-> "not", e |-> [k |-> "isEmptyq", sym |-> <<"boss", "peers">>, q |-> Q([k |-> "atom", sym |-> sym, a |-> IsNull(TRUE)])]]) : sym \in SetSyms}
         \* sub-queries over symbols that are no entity sets (scalars, string sets, maps, unknown names), also nested
         \cup {Q([k |-> "isEmptyq", sym |-> sym, q |-> Q(p)]) : sym \in MixSyms, p \in {TRUEF, A1}}
         \cup {Q([k |-> "countq", sym |-> sym, q |-> Q(TRUEF), op |-> "gt", n |-> N(0)]) : sym \in MixSyms}
